@@ -93,7 +93,7 @@ Proof.
 Qed.
 
 Section WithB.
-Variable Bf : string -> value.
+Variable Bf : ftab.
 Local Notation ssem := (StmtSem.ssem Bf).
 Local Notation RunsS := (StmtCorrect.RunsS Bf).
 Local Notation comp_stmt := (StmtCorrect.comp_stmt Bf).
@@ -102,18 +102,25 @@ Local Notation bcode := (StmtCorrect.bcode Bf).
 
 (* the built-ins stay where they are when more code is appended and when only memories, contexts and
    the world change *)
-Lemma bcode_same v1 v2 : v_cs v2 = v_cs v1 -> v_frames v2 = v_frames v1 -> bcode v1 -> bcode v2.
+Lemma bcode_same v1 v2 : v_cs v2 = v_cs v1 -> v_ds v2 = v_ds v1 -> v_frames v2 = v_frames v1 -> bcode v1 -> bcode v2.
 Proof.
-  intros Hc Hf [H1 H2]. split.
+  intros Hc Hd Hf [H1 [H2 H3]]. split; [|split].
   - intros nm b mo fid Hb Hbf. destruct (H1 nm b mo fid Hb Hbf) as (morph & fid' & fr & i1 & i2 & R).
     exists morph, fid', fr, i1, i2. rewrite Hc, Hf. exact R.
   - intros mo fid Hbf. destruct (H2 mo fid Hbf) as (morph & fid' & fr & i1 & i2 & R).
     exists morph, fid', fr, i1, i2. rewrite Hc, Hf. exact R.
+  - intros nm body mo fid Hb Hbody Hbf.
+    destruct (H3 nm body mo fid Hb Hbody Hbf) as (morph & fid' & fr & s0 & s1 & wb & flb & R1 & R2 & R3 & R4 & R5 & R6 & R7 & R8 & R9 & R10 & R11 & R12).
+    exists morph, fid', fr, s0, s1, wb, flb. rewrite Hf.
+    split; [exact R1|]. split; [exact R2|]. split; [exact R3|]. split; [exact R4|]. split; [exact R5|]. split; [exact R6|].
+    split; [exact R7|]. split; [exact R8|]. split; [exact R9|]. split; [exact R10|]. split.
+    + intros code Hcode i x Hi. rewrite Hc. exact (R11 code Hcode i x Hi).
+    + intros i x Hi. rewrite Hd. exact (R12 i x Hi).
 Qed.
 
-Lemma bcode_extend v s s' code : rcs s' = rev code ++ rcs s -> bcode (load_code v s) -> bcode (load_code v s').
+Lemma bcode_extend v s s' code : lay s s' code -> bcode (load_code v s) -> bcode (load_code v s').
 Proof.
-  intros R [H1 H2]. split.
+  intros (R & _ & [dd D]) [H1 [H2 H3]]. split; [|split].
   - intros nm b mo fid Hb Hbf. destruct (H1 nm b mo fid Hb Hbf) as (morph & fid' & fr & i1 & i2 & R1 & R2 & R3 & R4 & R5 & R6 & R7).
     exists morph, fid', fr, i1, i2. cbn [load_code v_cs v_frames] in *. rewrite R, rev_app_distr, rev_involutive.
     split; [exact R1|]. split; [exact R2|]. split; [exact R3|]. split; [exact R4|].
@@ -122,6 +129,14 @@ Proof.
     exists morph, fid', fr, i1, i2. cbn [load_code v_cs v_frames] in *. rewrite R, rev_app_distr, rev_involutive.
     split; [exact R1|]. split; [exact R2|]. split; [exact R3|]. split; [exact R4|].
     split; [apply znth_app_l; exact R5|]. split; [apply znth_app_l; exact R6|exact R7].
+  - intros nm body mo fid Hb Hbody Hbf.
+    destruct (H3 nm body mo fid Hb Hbody Hbf) as (morph & fid' & fr & s0 & s1 & wb & flb & R1 & R2 & R3 & R4 & R5 & R6 & R7 & R8 & R9 & R10 & R11 & R12).
+    exists morph, fid', fr, s0, s1, wb, flb. cbn [load_code v_cs v_ds v_frames] in *.
+    split; [exact R1|]. split; [exact R2|]. split; [exact R3|]. split; [exact R4|]. split; [exact R5|]. split; [exact R6|].
+    split; [exact R7|]. split; [exact R8|]. split; [exact R9|]. split; [exact R10|]. split.
+    + intros code0 Hcode i x Hi. cbn [load_code v_cs]. rewrite R, rev_app_distr, rev_involutive. apply znth_app_l.
+      exact (R11 code0 Hcode i x Hi).
+    + intros i x Hi. cbn [load_code v_ds]. rewrite D, rev_app_distr. apply znth_app_l. exact (R12 i x Hi).
 Qed.
 
 (* a checker for the premise, so that it is established by one computation *)
@@ -149,10 +164,10 @@ Definition fun_at (v : vm) (f : value) (arity op k0 : Z) : bool :=
   end.
 
 Definition bcode_b (v : vm) : bool :=
-  fun_at v (Bf "write") 1 WRITE AddrLcl && fun_at v (Bf "toa") 1 TOA AddrLcl && fun_at v (Bf "aton") 1 ATON AddrLcl &&
-  fun_at v (Bf "read") 0 READ 0.
+  fun_at v (ft_val Bf "write") 1 WRITE AddrLcl && fun_at v (ft_val Bf "toa") 1 TOA AddrLcl &&
+  fun_at v (ft_val Bf "aton") 1 ATON AddrLcl && fun_at v (ft_val Bf "read") 0 READ 0.
 
-Lemma fun_at_b v b nm mo fid : fun_at v (Bf nm) 1 (bop_code b) AddrLcl = true -> Bf nm = VFun mo fid -> is_bfun v b (Bf nm).
+Lemma fun_at_b v b nm mo fid : fun_at v (ft_val Bf nm) 1 (bop_code b) AddrLcl = true -> ft_val Bf nm = VFun mo fid -> is_bfun v b (ft_val Bf nm).
 Proof.
   intros H E. rewrite E in *. cbn [fun_at] in H. apply andb_prop in H. destruct H as [H H3]. apply andb_prop in H. destruct H as [H1 H2].
   apply Z.eqb_eq in H1, H2.
@@ -163,10 +178,15 @@ Proof.
   exists mo, fid, fr, i1, i2. repeat split; assumption.
 Qed.
 
-Lemma bcode_b_sound v : bcode_b v = true -> bcode v.
+(* the user functions are established separately (is_ufun needs the compile state of the definition) *)
+Lemma bcode_b_sound v :
+  bcode_b v = true ->
+  (forall nm body mo fid, bop_of_name nm = None -> ft_body Bf nm = Some body -> ft_val Bf nm = VFun mo fid ->
+     is_ufun v body (ft_val Bf nm)) ->
+  bcode v.
 Proof.
-  unfold bcode_b. intros H. apply andb_prop in H. destruct H as [H Hr]. apply andb_prop in H. destruct H as [H Ha].
-  apply andb_prop in H. destruct H as [Hw Ht]. split.
+  unfold bcode_b. intros H HU. apply andb_prop in H. destruct H as [H Hr]. apply andb_prop in H. destruct H as [H Ha].
+  apply andb_prop in H. destruct H as [Hw Ht]. split; [|split; [|exact HU]].
   - intros nm b mo fid Hb Hbf. unfold bop_of_name in Hb.
     destruct (String.eqb_spec nm "write") as [->|_]; [injection Hb as <-; exact (fun_at_b v BWrite "write" mo fid Hw Hbf)|].
     destruct (String.eqb_spec nm "toa") as [->|_]; [injection Hb as <-; exact (fun_at_b v BToa "toa" mo fid Ht Hbf)|].
@@ -212,7 +232,7 @@ Theorem bytecode_run_stmt t s s' v c m n G' res :
   wstmt t = true -> wfcs s -> idle v s c m -> bcode (load_code v s) ->
   ByteCode t s = CompOk s' ->
   ssem n (wof v) t = Some (G', res) ->
-  wfcs s' /\ (exists code, rcs s' = rev code ++ rcs s) /\
+  wfcs s' /\ (exists code, lay s s' code) /\
   exists k, forall fuel,
     ((fuel <= k)%nat -> snd (Run fuel (load_code v s') true) = RFuel \/
                         match res with
@@ -244,8 +264,8 @@ Proof.
   destruct Hpush as [Lp [Rdf [Ndf Wfin]]].
   split; [exact Wfin|].
   assert (Lfin0 : lay s sfin (code ++ push_code K w)) by (apply (lay_trans s s1 sfin); assumption).
-  split; [exists (code ++ push_code K w); exact (proj1 Lfin0)|].
-  pose proof (bcode_extend v s sfin _ (proj1 Lfin0) Hbc0) as Hbc.
+  split; [exists (code ++ push_code K w); exact Lfin0|].
+  pose proof (bcode_extend v s sfin _ Lfin0 Hbc0) as Hbc.
   assert (XS : RunsS (fun G => ssem n G t) false s sfin s1 (code ++ push_code K w) AddrStck 0).
   { apply (value_on_stack _ s s1 sfin s1 code K A w (X n) NTmp NInv Sk Ew).
     - destruct L1 as (_ & N & _). exact N.
@@ -321,7 +341,7 @@ Proof.
   set (v1 := load_code v sfin).
   set (r0 := {| r_ctx := 0; r_ip := c_ip c; r_tmp := VNil |}).
   assert (Lfin : lay s sfin (code ++ pop_code K)) by (apply (lay_trans s s1 sfin); assumption).
-  pose proof (bcode_extend v s sfin _ (proj1 Lfin) Hbc0) as Hbc.
+  pose proof (bcode_extend v s sfin _ Lfin Hbc0) as Hbc.
   pose proof (code_at_loaded v s sfin _ Hwf (proj1 Lfin)) as Hc. fold v1 in Hc.
   pose proof Hc as Hc0. apply code_at_app in Hc. destruct Hc as [HcC HcP].
   assert (Hd1 : data_at v1 s1).
@@ -416,6 +436,11 @@ Proof.
       (rbind (resolve (NName nm)) (fun name' => rbind (resolve_list_of [e]) (fun args' => rret (NCall name' args'))) []).
     unfold rbind. rewrite (resolve_pure (NName nm) eq_refl). cbn [resolve_list_of]. unfold rbind.
     rewrite (resolve_pure e He). reflexivity.
+  - intros nm e _ He.
+    change (resolve (NCall (NName nm) [e]) []) with
+      (rbind (resolve (NName nm)) (fun name' => rbind (resolve_list_of [e]) (fun args' => rret (NCall name' args'))) []).
+    unfold rbind. rewrite (resolve_pure (NName nm) eq_refl). cbn [resolve_list_of]. unfold rbind.
+    rewrite (resolve_pure e He). reflexivity.
 Qed.
 
 (* what running a statement leaves: value or error class as the semantics says, and its world — the global
@@ -433,11 +458,9 @@ Definition bready (mc : machine) (c : ctx) (m : mem) : Prop :=
 Lemma bready_set_in mc c m l :
   bready mc c m -> bready {| mc_cs := mc_cs mc; mc_vm := set_in (mc_vm mc) l |} c m.
 Proof.
-  intros [[[Hwf [H1 H2 H3 H4]] [Hm Hc]] [Hb1 Hb2]].
+  intros [[[Hwf [H1 H2 H3 H4]] [Hm Hc]] Hb].
   split; [split; [split; [exact Hwf|constructor; assumption]|split; assumption]|].
-  split.
-  - intros nm b mo fid E1 E2. exact (Hb1 nm b mo fid E1 E2).
-  - intros mo fid E2. exact (Hb2 mo fid E2).
+  apply (bcode_same (load_code (mc_vm mc) (mc_cs mc))); [reflexivity|reflexivity|reflexivity|exact Hb].
 Qed.
 
 Theorem stmt_step t mc c m n G' sres :
@@ -460,7 +483,7 @@ Proof.
           constructor; try assumption.
           -- rewrite Hmid'. exact Hm'.
           -- destruct Hms as (_&_&_&_&_&B). pose proof (id_sp _ _ _ _ Hid). lia. }
-        cbn [mc_vm mc_cs]. apply (bcode_same (load_code (mc_vm mc) s')); [reflexivity| |exact Hbc'].
+        cbn [mc_vm mc_cs]. apply (bcode_same (load_code (mc_vm mc) s')); [reflexivity|reflexivity| |exact Hbc'].
         cbn [load_code v_frames]. exact Hfr'.
       * destruct Rgt as [me [rep R]]. rewrite R. cbn [fst snd mc_vm tree_agrees]. rewrite Hmid.
         destruct (reset_ready (set_world (load_code (mc_vm mc) s') G') s' c me W eq_refl (id_ctx _ _ _ _ Hid) Hmid Hch)
@@ -468,7 +491,7 @@ Proof.
         pose proof (reset_in (set_world (load_code (mc_vm mc) s') G') c me (id_ctx _ _ _ _ Hid) Hch) as [Hin [Hnx [Hfr Hcs]]].
         conj; [reflexivity| |exists c', m'; split; [exact Hr|]].
         { etransitivity; [exact (wof_eq _ _ Hg Ho Hin Hnx)|apply wof_set_world]. }
-        cbn [mc_vm mc_cs]. apply (bcode_same (load_code (mc_vm mc) s')); [reflexivity| |exact Hbc'].
+        cbn [mc_vm mc_cs]. apply (bcode_same (load_code (mc_vm mc) s')); [reflexivity|reflexivity| |exact Hbc'].
         etransitivity; [exact Hfr|reflexivity].
     + specialize (Rle Hge). destruct Rle as [F|Rle].
       * right. left. destruct (Run session_fuel (load_code (mc_vm mc) s') true) as [v' rr]. cbn [snd] in *. rewrite F. reflexivity.
@@ -479,7 +502,7 @@ Proof.
         pose proof (reset_in (set_world (load_code (mc_vm mc) s') G') c me (id_ctx _ _ _ _ Hid) Hch) as [Hin [Hnx [Hfr Hcs]]].
         conj; [reflexivity| |exists c', m'; split; [exact Hr|]].
         { etransitivity; [exact (wof_eq _ _ Hg Ho Hin Hnx)|apply wof_set_world]. }
-        cbn [mc_vm mc_cs]. apply (bcode_same (load_code (mc_vm mc) s')); [reflexivity| |exact Hbc'].
+        cbn [mc_vm mc_cs]. apply (bcode_same (load_code (mc_vm mc) s')); [reflexivity|reflexivity| |exact Hbc'].
         etransitivity; [exact Hfr|reflexivity].
   - left. reflexivity.
   - exfalso. destruct (bytecode_never_aborts t (mc_cs mc) Hb) as [NA _].
